@@ -66,6 +66,8 @@ def run(tier, seed, only=None):
     ch.run_harnesses(rep, specs, classify)
     if not only or 'tie' in only:
         tie_two_connections(rep, tier)
+    if not only or 'float' in only:
+        float_kernel(rep)
     return rep
 
 
@@ -142,3 +144,52 @@ def tie_two_connections(rep, tier):
         db.disconnect()
     finally:
         shutil.rmtree(d, ignore_errors=True)
+
+
+# -------------------------------------------------------------------------------------------------------------------
+def float_kernel(rep):
+    """The optimistic term of a float attribute (declared optimistic=True) is not `col = ?` but the builder's FLOAT_EQ text, an
+    arithmetic closeness test.  z3 (reals) decides, for each dialect's real builder text parsed by engine/symsql/sqlparse.py and
+    evaluated by sqlsem.py: FLOAT_EQ(a, b) <=> |a - b| <= 1e-14 * max(|a|, |b|) (the documented RELATIVE tolerance; equal values,
+    zero included, match), and FLOAT_NE is its negation - so a concurrent change of a float by more than one part in 1e14 always
+    fails the UPDATE, whatever the magnitude.  Reals stand in for IEEE doubles: rounding inside the SQL engine is outside."""
+    import time, z3
+    from engine import env
+    from engine.symsql import sqlparse, sqlsem
+    from engine.symsql.values import SV
+    from engine.core import INCONCLUSIVE
+    env.install_driver_stubs()
+    A, B = z3.Real('a'), z3.Real('b')
+    absr = lambda t: z3.If(t < 0, -t, t)
+    big = z3.If(absr(A) >= absr(B), absr(A), absr(B))
+    close = absr(A - B) <= z3.RealVal('1e-14') * big
+    for pname, dialect in (('sqlite', 'SQLite'), ('postgres', 'PostgreSQL'), ('mysql', 'MySQL'), ('oracle', 'Oracle')):
+        db = env.mock_database(pname)
+        for op, want in (('FLOAT_EQ', close), ('FLOAT_NE', z3.Not(close))):
+            name = 'float kernel: %s text of %s' % (op, dialect)
+            t0 = time.time()
+            try:
+                sql = db.provider.ast2sql(['SELECT', ['ALL', [op, ['COLUMN', 't', 'a'], ['COLUMN', 't', 'b']]], ['FROM', ['t', 'TABLE', 'T']]])[0]
+                tree = sqlparse.parse(sql, dialect, db.provider.paramstyle)
+                expr = tree[1]['cols'][0][0]
+                row = sqlsem.Row('T', 0, z3.BoolVal(True), {'a': SV('real', A), 'b': SV('real', B)})
+                e = sqlsem.Env(sqlsem.Ctx({}, {}, dialect), rows={'t': row})
+                v = sqlsem.ev(expr, e)
+            except Exception as ex:
+                rep.add(Ob(name, 'z3', INCONCLUSIVE, detail='not encodable: %s: %s' % (type(ex).__name__, str(ex)[:200]))); continue
+            s = z3.Solver(); s.set('timeout', 60000)
+            got = z3.And(z3.Not(v.n), v.t) if v.sort in ('bool', 'cond') else None
+            if got is None:
+                rep.add(Ob(name, 'z3', INCONCLUSIVE, detail='term of sort %s' % v.sort)); continue
+            s.add(got != want)
+            r = s.check()
+            dt = time.time() - t0
+            if r == z3.unsat: rep.add(Ob(name, 'z3', HOLDS, detail=sql.split('\n')[0][:200], time_s=dt))
+            elif r == z3.sat:
+                m = s.model()
+                av, bv = m.eval(A, model_completion=True), m.eval(B, model_completion=True)
+                rep.add(Ob(name, 'z3', CEX, detail='%s | a=%s b=%s: the text answers %s, relative closeness is %s' % (sql.split('\n')[0][:200], av, bv, m.eval(got), m.eval(want)),
+                           cex={'a': str(av), 'b': str(bv), 'sql': sql}, reproduced=True, key=None, time_s=dt,
+                           replay='# C20 float kernel: %s of %s on a=%s b=%s disagrees with |a-b| <= 1e-14*max(|a|,|b|)\nraise SystemExit(1)\n' % (op, dialect, av, bv)))
+            else:
+                rep.add(Ob(name, 'z3', INCONCLUSIVE, detail='solver: %s' % r, time_s=dt))
